@@ -447,8 +447,14 @@ func worldPorts(w *World) {
 			var r1, r2 M
 			var g1, g2 bool
 			wg.Add(2)
-			go func() { defer wg.Done(); r1, g1 = c1.register(M{"proxy_name": fn[0], "proxy_type": "tcp", "remote_port": port}) }()
-			go func() { defer wg.Done(); r2, g2 = c2.register(M{"proxy_name": fn[1], "proxy_type": "tcp", "remote_port": port}) }()
+			go func() {
+				defer wg.Done()
+				r1, g1 = c1.register(M{"proxy_name": fn[0], "proxy_type": "tcp", "remote_port": port})
+			}()
+			go func() {
+				defer wg.Done()
+				r2, g2 = c2.register(M{"proxy_name": fn[1], "proxy_type": "tcp", "remote_port": port})
+			}()
 			wg.Wait()
 			w.Check("C09.concurrent-exclusive")
 			w.Probe("ports.race")
